@@ -28,6 +28,11 @@ func c03Menu(w *mintops.W) []string {
 		ops = append(ops, fmt.Sprintf("pollq|%d", qi), fmt.Sprintf("mint|%d|exact", qi), fmt.Sprintf("mint|%d|same", qi), fmt.Sprintf("mint|%d|over", qi))
 		if q.Key != nil {
 			ops = append(ops, fmt.Sprintf("mint|%d|nosig", qi), fmt.Sprintf("mint|%d|badsig", qi))
+			// a genuine signature that does not cover exactly the submitted outputs of this quote, and (honest) several
+			// outputs in an unsorted order
+			for _, v := range []string{"sig-reordered", "sig-sorted", "sig-added", "sig-removed", "sig-otherquote", "unsorted"} {
+				ops = append(ops, fmt.Sprintf("mint|%d|%s", qi, v))
+			}
 		}
 		if w.LN.Invoices[q.Q.PaymentHash].Settled && !q.Fired {
 			ops = append(ops, fmt.Sprintf("fire|%d", qi))
